@@ -213,8 +213,21 @@ func utf8String(r *rand.Rand, xmlSafe bool) string {
 	}
 }
 
+var hardFloats = []float64{math.Pi, -math.Pi, 1.0 / 3, 1.0000000001, 123456789.125, math.MaxFloat64, -math.MaxFloat64,
+	math.SmallestNonzeroFloat64, 2.2250738585072014e-308, 2.225073858507201e-308, 4.9e-324, 1e-320, 3.4028234663852886e38 * 1.0000001,
+	3.4028235677973366e38, 1e39, 1.401298464324817e-45 / 3, 1e-46, 0.1, 16777217, 9007199254740993, math.Inf(1), math.Inf(-1),
+	math.Copysign(0, -1), 1e23, 8.41e21, 5e-324, 1.7976931348623157e308}
+
+// libNoInf: encoding/json refuses +-Inf ("unsupported value"), so the json family stays finite.
+var libNoInf bool
+
 func genFloat(r *rand.Rand, bits int) float64 {
 	var f float64
+	if bits == 64 && r.Intn(3) == 0 {
+		if h := hardFloats[r.Intn(len(hardFloats))]; !(libNoInf && math.IsInf(h, 0)) {
+			return h
+		}
+	}
 	switch r.Intn(10) {
 	case 0:
 		f = 0
@@ -243,12 +256,12 @@ func genFloat(r *rand.Rand, bits int) float64 {
 			f = float64(math.Float32frombits(r.Uint32()))
 		}
 	}
-	if math.IsNaN(f) || math.IsInf(f, 0) {
+	if math.IsNaN(f) || (libNoInf && math.IsInf(f, 0)) {
 		f = 0.25
 	}
 	if bits == 32 {
 		f = float64(float32(f))
-		if math.IsInf(f, 0) {
+		if math.IsInf(f, 0) && libNoInf {
 			f = 0.5
 		}
 	}
@@ -364,12 +377,95 @@ type libFamily struct {
 	name  string
 	c     codec.Codec
 	fresh func(r *rand.Rand) (filled reflect.Value, zero reflect.Value) // pointers
+	// expectDirty: canonical print of what decoding the encoding of v into a destination that
+	// already holds old must give, per the codec's DOCUMENTED merge semantics (nil: exactly v)
+	expectDirty func(old, v reflect.Value) string
 }
+
+// float families for the repository's own codecs (floats are outside the Coq model)
+type F32 float32
+
+type FFloats struct {
+	F32 float32
+	F64 float64
+	Fs  []float64
+	F3s []float32
+	A   [2]float64
+	N   F32 `form:"n"`
+	In  struct {
+		G  float64   `form:"g"`
+		Gs []float64 `form:"g s"`
+	}
+	S string
+	I int16
+}
+
+// encoding/json (documented): "To unmarshal a JSON object into a map, Unmarshal ... reuses the
+// existing map, keeping existing entries"; slices are reset to length zero, arrays overwritten,
+// null sets slices/maps/pointers to nil, and every struct field our encoder emits is overwritten.
+func jsonExpectDirty(old, v reflect.Value) string {
+	exp := reflect.New(v.Type()).Elem()
+	exp.Set(v)
+	var walk func(e, o reflect.Value)
+	walk = func(e, o reflect.Value) {
+		switch e.Kind() {
+		case reflect.Struct:
+			for i := 0; i < e.NumField(); i++ {
+				walk(e.Field(i), o.Field(i))
+			}
+		case reflect.Ptr:
+			if !e.IsNil() && !o.IsNil() {
+				c := reflect.New(e.Type().Elem())
+				c.Elem().Set(e.Elem())
+				walk(c.Elem(), o.Elem())
+				e.Set(c)
+			}
+		case reflect.Map:
+			if !e.IsNil() && !o.IsNil() {
+				m := reflect.MakeMap(e.Type())
+				for _, k := range o.MapKeys() {
+					m.SetMapIndex(k, o.MapIndex(k))
+				}
+				for _, k := range e.MapKeys() {
+					m.SetMapIndex(k, e.MapIndex(k))
+				}
+				e.Set(m)
+			}
+		}
+	}
+	walk(exp, old)
+	return canon(exp)
+}
+
+// encoding/xml (documented): "Unmarshal maps an XML element to a slice by extending the length of
+// the slice and mapping the element to the newly created value" - slices are appended to; every
+// other field our encoder emits is overwritten.
+func xmlExpectDirty(old, v reflect.Value) string {
+	exp := reflect.New(v.Type()).Elem()
+	exp.Set(v)
+	var walk func(e, o reflect.Value)
+	walk = func(e, o reflect.Value) {
+		switch e.Kind() {
+		case reflect.Struct:
+			for i := 0; i < e.NumField(); i++ {
+				walk(e.Field(i), o.Field(i))
+			}
+		case reflect.Slice:
+			if e.Type().Elem().Kind() != reflect.Uint8 {
+				e.Set(reflect.AppendSlice(reflect.AppendSlice(reflect.MakeSlice(e.Type(), 0, o.Len()+e.Len()), o), e))
+			}
+		}
+	}
+	walk(exp, old)
+	return canon(exp)
+}
+
+func formFloatExpectDirty(old, v reflect.Value) string { return canon(formExpectDirty(old, v)) }
 
 func runLibs(cfg *RunCfg) {
 	r := cfg.Rng
 	st := NewStats("C11", cfg)
-	st.Rule = "libs: per codec {json, xml, protobuf, thrift}: round trip of generated values (ints at width extremes, finite floats incl. max/min/denormal, valid UTF-8 strings (XML: XML chars), slices/arrays/maps/nested/pointers as the library supports) compared element-wise; nil / struct{} / *struct{} / foreign types through the repository's dispatch; random bytes and mutated valid encodings into every destination must yield value or error, never a panic; distinct by (codec, encoded bytes or garbage)"
+	st.Rule = "libs: per codec {json, xml, protobuf, thrift, plain on float32/float64 scalars and pointers, form on a struct with float32/float64 fields, slices, arrays, nested}: round trip of generated values (ints at width extremes, floats incl. pi, 1/3, >7 and 17 significant digits, MaxFloat64, above MaxFloat32, subnormals of both widths, +-Inf, -0, random bit patterns (NaN excluded: NaN != NaN), each followed by a decode of the same bytes into a DIRTY destination (holding another decoded value) compared modulo the documented merge semantics, valid UTF-8 strings (XML: XML chars), slices/arrays/maps/nested/pointers as the library supports) compared element-wise; nil / struct{} / *struct{} / foreign types through the repository's dispatch; random bytes and mutated valid encodings into every destination must yield value or error, never a panic; distinct by (codec, encoded bytes or garbage)"
 	distinct := DistinctSet{}
 	jsonT := []reflect.Type{reflect.TypeOf(LJSON{}), reflect.TypeOf(LScalars{}), reflect.TypeOf(Slices{}), reflect.TypeOf(Arrays{}), reflect.TypeOf(Nested{}), reflect.TypeOf(Named{})}
 	xmlT := []reflect.Type{reflect.TypeOf(LXML{}), reflect.TypeOf(LScalars{}), reflect.TypeOf(LInner{})}
@@ -381,14 +477,29 @@ func runLibs(cfg *RunCfg) {
 			return v, reflect.New(t)
 		}
 	}
+	plainFloatT := []reflect.Type{reflect.TypeOf(float64(0)), reflect.TypeOf(float32(0)), reflect.TypeOf(F32(0)), reflect.TypeOf((*float64)(nil)), reflect.TypeOf((**float32)(nil))}
 	fams := []libFamily{
-		{"json", codec.JSONCodec{}, mk(jsonT, false)},
-		{"xml", codec.XMLCodec{}, mk(xmlT, true)},
+		{"json", codec.JSONCodec{}, mk(jsonT, false), jsonExpectDirty},
+		{"xml", codec.XMLCodec{}, mk(xmlT, true), xmlExpectDirty},
+		{"plain-float", codec.PlainCodec{}, func(r *rand.Rand) (reflect.Value, reflect.Value) {
+			t := plainFloatT[r.Intn(len(plainFloatT))]
+			v, z := reflect.New(t), reflect.New(t)
+			fillLib(v.Elem(), r, false, 0)
+			for e := v.Elem(); e.Kind() == reflect.Ptr; e = e.Elem() { // no nil pointers inside
+				if e.IsNil() {
+					e.Set(reflect.New(e.Type().Elem()))
+					fillLib(e.Elem(), r, false, 0)
+				}
+			}
+			zeroPtrs(z.Elem())
+			return v, z
+		}, nil},
+		{"form-float", codec.FormCodec{}, mk([]reflect.Type{reflect.TypeOf(FFloats{})}, false), formFloatExpectDirty},
 		{"protobuf", codec.ProtoCodec{}, func(r *rand.Rand) (reflect.Value, reflect.Value) {
 			p := &pb.Payload{Seq: int32(genInt(r, 32)), Mtype: int32(genInt(r, 32)), ServiceMethod: utf8String(r, false),
 				Status: RandBytes(r, genLen(r)), Meta: RandBytes(r, genLen(r)), BodyCodec: int32(genInt(r, 32)), Body: RandBytes(r, genLen(r))}
 			return reflect.ValueOf(p), reflect.ValueOf(&pb.Payload{})
-		}},
+		}, nil},
 		{"thrift", codec.ThriftCodec{}, func(r *rand.Rand) (reflect.Value, reflect.Value) {
 			t := &TRec{S: genString(r), I: int32(genInt(r, 32)), L: genInt(r, 64), B: r.Intn(2) == 0, Bi: RandBytes(r, genLen(r)), D: genFloat(r, 64)}
 			n := genLen(r)
@@ -396,10 +507,11 @@ func runLibs(cfg *RunCfg) {
 				t.Li = append(t.Li, genInt(r, 64))
 			}
 			return reflect.ValueOf(t), reflect.ValueOf(&TRec{})
-		}},
+		}, nil},
 	}
 	for i := 0; i < cfg.N; i++ {
 		f := fams[r.Intn(len(fams))]
+		libNoInf = f.name == "json"
 		switch c := r.Intn(10); {
 		case c < 5: // round trip
 			st.Count(f.name + ":roundtrip")
@@ -418,6 +530,42 @@ func runLibs(cfg *RunCfg) {
 				st.Fail(i, f.name+"-decode-panic", "decoder panicked on its own encoding: "+dmsg, human)
 			} else if do != oOK || canon(z.Elem()) != canon(v.Elem()) {
 				st.Fail(i, f.name+"-roundtrip", fmt.Sprintf("decode(encode(v)) != v: %s got %s", dmsg, canon(z.Elem())), human)
+			}
+			// decode into a DIRTY destination: another value of the type was decoded into it before
+			// (a reused reply/argument object).  Result = decoding into a fresh destination, modulo the
+			// codec's documented merge semantics (json: map entries kept; xml: slices appended;
+			// form: fields whose key is absent kept; plain, protobuf, thrift: none).
+			a, d := f.fresh(r)
+			for try := 0; try < 12 && a.Type() != v.Type(); try++ {
+				a, d = f.fresh(r)
+			}
+			if a.Type() == v.Type() {
+				encA, eoA, _ := guardedMarshal(f.c, a.Interface())
+				if eoA == oOK {
+					if doA, _ := guardedUnmarshal(f.c, encA, d.Interface()); doA == oOK {
+						st.Count(f.name + ":dirty-destination")
+						old := reflect.New(d.Elem().Type()).Elem()
+						old.Set(d.Elem())
+						oldS := canon(old)
+						want := canon(v.Elem())
+						if f.expectDirty != nil {
+							want = f.expectDirty(old, v.Elem())
+						}
+						do2, msg2 := guardedUnmarshal(f.c, enc, d.Interface())
+						if do2 == oPanic {
+							st.Fail(i, f.name+"-decode-panic", "decoder panicked on a dirty destination: "+msg2, human)
+						} else if do2 != oOK || canon(d.Elem()) != want {
+							g := canon(d.Elem())
+							if len(g) > 400 {
+								g = g[:400] + "..."
+							}
+							if len(oldS) > 300 {
+								oldS = oldS[:300] + "..."
+							}
+							st.Fail(i, f.name+"-dirty-destination", fmt.Sprintf("decoding into a destination that held %s gives %s %s", oldS, g, msg2), human)
+						}
+					}
+				}
 			}
 			distinct.Add(f.name + Hx(enc))
 			if len(st.Samples) < 4 {
